@@ -7,6 +7,8 @@ open GrVerif.Props.C01
 #print axioms GrVerif.Props.C13.lookup12_in_bounds
 #print axioms GrVerif.Props.C14.table_no_fault
 #print axioms GrVerif.Props.C14.lz4_in_bounds
+#print axioms class_map_total
+#print axioms class_lookups_in_bounds
 #print axioms pass_layout_total
 #print axioms ranges_after_layout
 #print axioms pass_states_total
